@@ -193,8 +193,8 @@ def rule2(ctx, rep):
         loops = [n for n in disp.own_nodes() if isinstance(n, ast.For)]
         _loop, jv = shared.job_loop(prog, disp)
         puts = calls_to(prog, disp, put.qname)
-        if len(puts) < 3:
-            raise AnalysisError('farm.dispatch: fewer than three _put call sites (analysis / task / regress)')
+        if not puts:
+            raise AnalysisError('farm.dispatch: no _put call site found')
         for c in puts:
             r.instance()
             from ..util import arg
@@ -575,6 +575,67 @@ def rule7(ctx, rep):
         )
 
 
+def rule8(ctx, rep):
+    """the release filter may shrink a work set while a loop walks it (added after seeded change C01-8: Unique.__iter__ stopped
+    copying and next_job_batch walked `available` while removing from it; the target after each withheld one was never
+    tested against that ancestor and was released)"""
+    prog = ctx.prog
+    with rep.rule(
+        'R-C01-8',
+        'iteration is over a snapshot: fifo.Unique.__iter__ iterates a copy of its order list, and no loop of the scheduler / farm shrinks the plain list / set / dict it is iterating (unless it iterates a copy)',
+        floor=2,
+        breaks='an element is skipped by the loop that decides whether it has to be withheld: a target is released while a queued ancestor still holds it',
+    ) as r:
+        it = prog.func('dawgie.util.fifo.Unique.__iter__')
+        rep.analysed(it)
+        r.instance()
+        rets = [n for n in it.own_nodes() if isinstance(n, ast.Return) and n.value is not None]
+
+        def snapshot(e):
+            # <x>.copy().__iter__()  /  iter(<x>.copy())  /  iter(list(<x>))  /  iter(tuple(<x>))  /  list(<x>).__iter__()
+            for x in ast.walk(e):
+                if isinstance(x, ast.Call) and isinstance(x.func, ast.Attribute) and x.func.attr == 'copy':
+                    return True
+                if isinstance(x, ast.Call) and isinstance(x.func, ast.Name) and x.func.id in ('list', 'tuple', 'sorted'):
+                    return True
+                if isinstance(x, ast.Subscript) and isinstance(x.slice, ast.Slice) and x.slice.lower is None and x.slice.upper is None:
+                    return True
+            return False
+
+        uniq_snapshot = bool(rets) and all(snapshot(n.value) for n in rets) and not any(isinstance(n, (ast.Yield, ast.YieldFrom)) for n in it.own_nodes())
+        r.check(
+            uniq_snapshot,
+            f'{it.qname}:iterates-a-copy',
+            where(it),
+            'Unique.__iter__ returns an iterator over a copy',
+            f'{it.qname} iterates the live order list ({norm(rets[0].value) if rets else "no return"}): every loop over a todo / doing / do set that removes from it skips elements',
+        )
+        # plain containers: no shrink of the iterated container inside the loop
+        n = 0
+        for q, raw in sorted(prog.funcs.items()):
+            if raw.module.name not in ('dawgie.pl.schedule', 'dawgie.pl.farm'):
+                continue
+            f = prog.nfunc(q)
+            for lp in [x for x in f.own_nodes() if isinstance(x, ast.For)]:
+                src = lp.iter
+                if isinstance(src, ast.Call) or not isinstance(src, (ast.Name, ast.Attribute)):
+                    continue
+                key = norm(src)
+                bad = []
+                for b in lp.body:
+                    for x in ast.walk(b):
+                        if isinstance(x, ast.Call) and isinstance(x.func, ast.Attribute) and x.func.attr in ('remove', 'pop', 'clear', 'discard', 'popitem', 'insert', 'append') and norm(x.func.value) == key:
+                            bad.append(x)
+                        if isinstance(x, ast.Delete) and any(isinstance(t, ast.Subscript) and norm(t.value) == key for t in x.targets):
+                            bad.append(x)
+                n += 1
+                if bad:
+                    r.instance()
+                    r.fail(f'{q}:{key}:mutated-while-iterated', where(f, bad[0]), f'{q} changes {key} ({norm(bad[0])[:50]}) inside the loop that iterates it: elements are skipped')
+        r.instance()
+        r.ok('dawgie.pl.schedule+farm:no-mutation-of-iterated-container', f'{n} loops over plain names / attributes checked')
+
+
 def check(ctx):
     rep = Report(
         PID,
@@ -597,11 +658,14 @@ def check(ctx):
     rule5(ctx, rep)
     rule6(ctx, rep)
     rule7(ctx, rep)
+    rule8(ctx, rep)
     return rep
 
 
 _NJB = ('pl/schedule.py', 'next_job_batch')
 VARIANTS = [
+    V('Unique iterates its live list', 'B', 'util/fifo.py', 'Unique.__iter__', 'return self.__order.copy().__iter__()', 'return iter(self.__order)', 'R-C01-8'),
+    V('Unique iterates a list() snapshot', 'N', 'util/fifo.py', 'Unique.__iter__', 'return self.__order.copy().__iter__()', 'return iter(list(self.__order))', None),
     V('find matches by prefix', 'B', 'pl/schedule.py', 'find', 'lambda j: j.tag == jobid', 'lambda j: jobid.startswith(j.tag)', 'R-C01-7'),
     V('find as comprehension', 'N', 'pl/schedule.py', 'find', 'avail = list(filter(lambda j: j.tag == jobid, que))', 'avail = [j for j in que if jobid == j.tag]', None),
     V('defer fills todo without queueing', 'B', 'pl/schedule.py', 'defer', 'que.append(t)', 'pass', 'R-C01-6'),
